@@ -6,54 +6,16 @@
 namespace glm{
 namespace detail
 {
+	// Nearest multiple: the lower or the upper neighbouring multiple, whichever is closer (the upper one on ties).
 	template<bool is_float, bool is_signed>
-	struct compute_roundMultiple {};
-
-	template<>
-	struct compute_roundMultiple<true, true>
+	struct compute_roundMultiple
 	{
 		template<typename genType>
 		GLM_FUNC_QUALIFIER static genType call(genType Source, genType Multiple)
 		{
-			if (Source >= genType(0))
-				return Source - std::fmod(Source, Multiple);
-			else
-			{
-				genType Tmp = Source + genType(1);
-				return Tmp - std::fmod(Tmp, Multiple) - Multiple;
-			}
-		}
-	};
-
-	template<>
-	struct compute_roundMultiple<false, false>
-	{
-		template<typename genType>
-		GLM_FUNC_QUALIFIER static genType call(genType Source, genType Multiple)
-		{
-			if (Source >= genType(0))
-				return Source - Source % Multiple;
-			else
-			{
-				genType Tmp = Source + genType(1);
-				return Tmp - Tmp % Multiple - Multiple;
-			}
-		}
-	};
-
-	template<>
-	struct compute_roundMultiple<false, true>
-	{
-		template<typename genType>
-		GLM_FUNC_QUALIFIER static genType call(genType Source, genType Multiple)
-		{
-			if (Source >= genType(0))
-				return Source - Source % Multiple;
-			else
-			{
-				genType Tmp = Source + genType(1);
-				return Tmp - Tmp % Multiple - Multiple;
-			}
+			genType const Lower = compute_floorMultiple<is_float, is_signed>::call(Source, Multiple);
+			genType const Upper = compute_ceilMultiple<is_float, is_signed>::call(Source, Multiple);
+			return (Source - Lower) < (Upper - Source) ? Lower : Upper;
 		}
 	};
 }//namespace detail
